@@ -185,6 +185,39 @@ template<class Tag, class AO, class BO> struct OpX {
 		{ matrix<double, BO> V2 = solve(A, B, Tag(), left()); c.putMat(V2); }
 	}
 };
+// accumulating forms: the solve expression is ADDED to / SUBTRACTED from a target that already holds values (plus_assign_to /
+// minus paths of the solve and inverse expressions), both sides, matrix and vector right-hand sides
+template<class Tag, class AO, class BO> struct OpY {
+	static void run(Ctx& c) {
+		std::size_t n = c.size(), m = c.size();
+		matrix<double, AO> A; c.readMat(A, n, n);
+		matrix<double, BO> B; c.readMat(B, n, m);      // left:  A X = B
+		matrix<double, BO> Cm; c.readMat(Cm, m, n);    // right: Y A = C
+		matrix<double, BO> X0; c.readMat(X0, n, m);
+		matrix<double, BO> Y0; c.readMat(Y0, m, n);
+		vector<double> b; c.readVec(b, n);
+		vector<double> v0; c.readVec(v0, n);
+		c.done();
+		{ matrix<double, BO> R = solve(A, B, Tag(), left()); c.putMat(R); } c.sep();                                  // 0 reference, left
+		{ matrix<double, BO> X = X0; noalias(X) += solve(A, B, Tag(), left()); c.putMat(X); } c.sep();                // 1
+		{ matrix<double, BO> X = X0; noalias(X) += inv(A, Tag()) % B; c.putMat(X); } c.sep();                         // 2
+		{ matrix<double, BO> X = X0 + solve(A, B, Tag(), left()); c.putMat(X); } c.sep();                             // 3
+		{ matrix<double, BO> X = X0; noalias(X) -= solve(A, B, Tag(), left()); c.putMat(X); } c.sep();                // 4
+		{ matrix<double, BO> X = X0; X += solve(A, B, Tag(), left()); c.putMat(X); } c.sep();                         // 5
+		{ matrix<double, BO> R = solve(A, Cm, Tag(), right()); c.putMat(R); } c.sep();                                // 6 reference, right
+		{ matrix<double, BO> Y = Y0; noalias(Y) += solve(A, Cm, Tag(), right()); c.putMat(Y); } c.sep();              // 7
+		{ matrix<double, BO> Y = Y0; noalias(Y) += Cm % inv(A, Tag()); c.putMat(Y); } c.sep();                        // 8
+		{ matrix<double, BO> Y = Y0 + solve(A, Cm, Tag(), right()); c.putMat(Y); } c.sep();                           // 9
+		{ matrix<double, BO> Y = Y0; noalias(Y) -= solve(A, Cm, Tag(), right()); c.putMat(Y); } c.sep();              // 10
+		{ matrix<double, BO> Y = Y0; Y += solve(A, Cm, Tag(), right()); c.putMat(Y); } c.sep();                       // 11
+		{ vector<double> r = solve(A, b, Tag(), left()); c.putVec(r); } c.sep();                                      // 12 reference, vector left
+		{ vector<double> v = v0; noalias(v) += solve(A, b, Tag(), left()); c.putVec(v); } c.sep();                    // 13
+		{ vector<double> v = v0; noalias(v) -= inv(A, Tag()) % b; c.putVec(v); } c.sep();                             // 14
+		{ vector<double> r = solve(A, b, Tag(), right()); c.putVec(r); } c.sep();                                     // 15 reference, vector right
+		{ vector<double> v = v0; noalias(v) += solve(A, b, Tag(), right()); c.putVec(v); } c.sep();                   // 16
+		{ vector<double> v = v0 - b % inv(A, Tag()); c.putVec(v); }                                                   // 17
+	}
+};
 template<class AO> struct OpC {
 	static void run(Ctx& c) {
 		std::size_t n = c.size();
@@ -292,6 +325,7 @@ static void dispatch(char letter, Ctx& c) {
 	}
 	case 'I': sel[0] = c.word(); sel[1] = c.word(); sel[2] = c.word(); D<OpI, L<KTag, KOri, KOri> >::go(c, sel); break;
 	case 'X': sel[0] = c.word(); sel[1] = c.word(); sel[2] = c.word(); D<OpX, L<KTag, KOri, KOri> >::go(c, sel); break;
+	case 'Y': sel[0] = c.word(); sel[1] = c.word(); sel[2] = c.word(); D<OpY, L<KTag, KOri, KOri> >::go(c, sel); break;
 	case 'C': sel[0] = c.word(); D<OpC, L<KOri> >::go(c, sel); break;
 	case 'U': sel[0] = c.word(); D<OpU, L<KOri> >::go(c, sel); break;
 	case 'G': sel[0] = c.word(); D<OpG, L<KOri> >::go(c, sel); break;
